@@ -235,6 +235,19 @@ def check_reader(rep, prog, fn):
                 else:
                     rep.undecided('R10s', sc, fn, whats, 'array bounds not constant')
 
+    # the weight is parsed in double precision: a single-precision parser (strtof / std::stof, %f into a float) rounds decimal weights and
+    # integers above 2^24 and flushes tiny positive weights to 0 (which then fail the positivity gate)
+    for n in nodes:
+        if n.k == 'CallExpr' and n.callee and n.callee['name'] in ('strtof', 'stof'):
+            rep.violation('R10b', n, fn, 'the weight of an edge line is parsed in double precision',
+                          '`%s` parses the weight as a float: 0.1 is stored as 0.10000000149, 16777217 as 16777216 and 1e-50 as 0 (a positive weight then fails '
+                          'the positivity check)' % n.text(40), key='R10b|%s|single-precision' % fn.g)
+    for sc_ in scans:
+        fmt_, binds_ = scanf_bindings(sc_)
+        for (c_, vid_, a_) in (binds_ or []):
+            if c_[-1] in 'fgeE' and 'l' not in c_ and 'L' not in c_ and vid_ is not None:
+                rep.violation('R10b', sc_, fn, 'the weight of an edge line is parsed in double precision',
+                              'conversion `%s` reads a float, not a double' % c_, key='R10b|%s|single-precision' % fn.g)
     if edge_scan is None:
         rep.analysis_broken('edge-line sscanf with a floating-point weight conversion not found in the reader')
         return
@@ -491,6 +504,17 @@ def check_reader(rep, prog, fn):
         else:
             rep.ok('R10d', av, fn, whatv, 'for i = 1..nnodes: vertex_map[i] = add_vertex')
 
+    # R10d: every line of the file is dispatched: the line loop ends at end of file only (or with an exception for a malformed reference)
+    if line_loop is not None and line_loop.body is not None:
+        whatl = 'every line of the file is read: the line loop is left only at end of file'
+        early = [x for x in line_loop.body.walk() if (x.k in ('BreakStmt',) and x.enclosing('ForStmt', 'WhileStmt', 'DoStmt', 'CXXForRangeStmt', 'SwitchStmt') is line_loop) or
+                 x.k in ('ReturnStmt', 'GotoStmt')]
+        if early:
+            g_ = ex.ast_conditions(early[0])
+            rep.violation('R10d', early[0], fn, whatl, '`%s` leaves the line loop%s: the lines after it (edges, further problem lines) are never read' % (
+                early[0].text(30), (' under `%s`' % g_[0][0].text(40)) if g_ else ''), key='R10d|%s|early-exit' % fn.g)
+        else:
+            rep.ok('R10d', line_loop, fn, whatl, 'no break / return / goto inside the line loop')
     # R10d edges
     whate = 'one edge per edge line joining the two named vertices with the parsed weight'
     in_loop_edges = [a for a in add_edges if line_loop is not None and line_loop.is_ancestor_of(a)]
